@@ -241,3 +241,8 @@ def c124(ctx):
     exc = {k: v for k, v in PANIC_EXC.items() if any(f.skey == k[0] for f in fns)}
     K.panic_audit(ctx, R + "p", fns, exc)
     ctx.floor(R, "R-ERR sites in the log reader", n, 25)
+    from .C09_exc import BOUNDS_EXC
+    ctx.declare(R + "b", "log bytes are never indexed beyond the length a dominating comparison established for that same buffer")
+    bexc = {k: v for k, v in BOUNDS_EXC.items() if any(f.skey == k[0] for f in fns)}
+    nb, pb = K.bounds_audit(ctx, R + "b", fns, bexc, elem=r"^u8$")
+    ctx.floor(R + "b", "byte-buffer index / slice sites in the log reader", nb, 2)
